@@ -102,6 +102,8 @@ def main():
             qs.append(gen.render_tricky(seq, i))
     qs += ["a AND (b OR (c AND (d OR (e AND (f OR g)))))", "f:(alpha beta gamma) OR g:(delta AND epsilon AND zeta) OR NOT eta^2",
            "(a OR b) AND (c OR d) AND (e OR f) AND [1 TO 2] AND \"p q\"~3", "\"a\nb\" AND c", "/x\ny/ OR d", "\"line one\nline two\" \"three\"",
+           "(NOT \"two\nlines\" OR something) AND other", "-\"x\ny\" zzzzzzzzzz", "[\"a\nb\" TO c] AND dddddddddddd", "NOT (x OR \"a\nb\") AND yyyyyyyyyyyyy",
+           "f:(+\"l1\nl2\" -/r\ns/) gggggggggggg", "a AND foo\\ ", "C\\:\\\\Program\\  AND b", "first\\ name OR last\\ ", "NOT a AND b", "+a -b <c >=d",
            "[1 TO 5]", "{1 TO 5}", "[1 TO 5}", "{1 TO 5]", ">=18", ">18", "<=18", "<18", "f:[a TO b] AND g:{a TO b}", "f:{a TO b} AND g:[a TO b]",
            "a~", "a~0.5", "a^1", "a^", "\"p q\"~", "\"p q\"~1",
            "a b c d e f g h i j k l m n o p", "f:\"a  b\" AND c", "/x  y/ OR d", "\"a\tb\" c OR \"  lead\" AND \"trail  \"", "a OR b OR a",
@@ -112,7 +114,7 @@ def main():
     rest, hit = classify(failures, p.get("known", []))
     emit({"ok": not rest, "evaluations": sum(r[0] for r in res), "distinct_nontrivial": len(qs),
           "rule": "queries = accepted token sequences of <= %d tokens with short texts, with long texts when they contain a term or phrase, every third one with texts that probe token boundaries (escapes, quotes / operators inside phrases), "
-                  "+ 33 hand-picked (deep nesting, line breaks and runs of blanks inside phrases/regexes, repeated operands, look-alike pairs that differ in inclusiveness / implicit numerals only); also printed by a long-lived printer per setting (history); x 18 settings; distinct = queries" % p["max_tokens"],
+                  "+ 43 hand-picked (deep nesting, line breaks and runs of blanks inside phrases/regexes, repeated operands, look-alike pairs that differ in inclusiveness / implicit numerals only); also printed by a long-lived printer per setting (history); x 18 settings; distinct = queries" % p["max_tokens"],
           "bound": "token sequences <= %d x 18 settings" % p["max_tokens"],
           "samples": [{"query": "a AND (b OR c)", "settings": [4, 10, False], "pretty": Prettifier(4, 10)(parser.parse("a AND (b OR c)"))}],
           "failures": rest[:40], "known": hit, "known_covered": len(failures) - len(rest)})
